@@ -440,3 +440,77 @@ def regex_fullmatch(check: Check, repo: Repo, modules: list[str], rule: str = "R
                     ok = meth == "fullmatch" or pat.endswith("\\Z") or not pat.endswith("$")
                     check.ob(rule, u, f"{name}.{meth}(...) with {pat!r} in {qualname_of(u)}", ok,
                              "whole-string match" if ok else f"pattern {pat!r} with .{meth}() also accepts the string followed by a line feed")
+
+
+# -- further sibling agreement (added after seeded changes C15-1..3 were missed) -----------------
+
+
+def sibling_details(check: Check, repo: Repo, rule: str = "SIBLING-DETAILS") -> None:
+    check.rule(
+        rule,
+        "beyond presence of the atoms, siblings agree on their parameters: (a) the class tested in the "
+        "'not an object' rejection is the same in coerce_input_value and validate_input_value_impl "
+        "(dict vs dict) and in the literal pair (ObjectValueNode); (b) the sentinel that means 'field "
+        "absent' in the input-object branch is exactly Undefined in every value-family sibling incl. "
+        "value_to_literal (None is a provided null); (c) coercion and validation select the fragment "
+        "variable scope by membership in the same attribute of fragment_variable_values",
+    )
+    fams = {
+        "value": [("utilities.coerce_input_value", "coerce_input_value"),
+                  ("utilities.validate_input_value", "validate_input_value_impl")],
+        "literal": [("utilities.coerce_input_value", "coerce_input_literal"),
+                    ("utilities.validate_input_value", "validate_input_literal_impl")],
+    }
+    # (a)
+    for fam, members in fams.items():
+        seen = {}
+        for mn, fnname in members:
+            fn = repo.func(mn, fnname)
+            ob = _branch(fn, "is_input_object_type")
+            classes = set()
+            if ob is not None:
+                for n in ob.body:
+                    if isinstance(n, ast.If) and isinstance(n.test, ast.UnaryOp) and isinstance(n.test.op, ast.Not) \
+                            and isinstance(n.test.operand, ast.Call) and call_name(n.test.operand) == "isinstance":
+                        classes.add(unparse(n.test.operand.args[1]))
+            seen[fnname] = (fn, classes)
+        allc = [c for _, c in seen.values()]
+        agree = all(c == allc[0] and len(c) == 1 for c in allc)
+        for fnname, (fn, classes) in seen.items():
+            check.ob(rule, fn, f"{fam} family: object class tested by {fnname}", agree,
+                     f"{sorted(classes)}" if agree else f"siblings test different classes: { {k: sorted(v[1]) for k, v in seen.items()} }")
+    # (b)
+    vfam = fams["value"] + [("utilities.value_to_literal", "value_to_literal")]
+    for mn, fnname in vfam:
+        fn = repo.func(mn, fnname)
+        ob = _branch(fn, "is_input_object_type")
+        sentinels: set[str] = set()
+        if ob is not None:
+            for s in ob.body:
+                for n in ast.walk(s):
+                    if isinstance(n, ast.If):
+                        for c in ast.walk(n.test):
+                            if isinstance(c, ast.Compare) and len(c.ops) == 1 and isinstance(c.ops[0], ast.Is) \
+                                    and unparse(c.left) == "field_value":
+                                sentinels.add(unparse(c.comparators[0]))
+        ok = sentinels == {"Undefined"}
+        check.ob(rule, fn, f"value family: {fnname} treats exactly Undefined as an absent field", ok,
+                 f"`field_value is X` tests with X in {sorted(sentinels)}")
+    # (c)
+    coer = repo.func("utilities.coerce_input_value", "get_coerced_variable_value")
+    vali = repo.func("utilities.validate_input_value", "get_scoped_variable_values")
+
+    def scope_attr(fn: ast.AST) -> set[str]:
+        out = set()
+        for n in walk_body(fn):
+            if isinstance(n, ast.Compare) and len(n.ops) == 1 and isinstance(n.ops[0], ast.In):
+                r = n.comparators[0]
+                if isinstance(r, ast.Attribute) and unparse(r.value) == "fragment_variable_values":
+                    out.add(r.attr)
+        return out
+
+    a, b = scope_attr(coer), scope_attr(vali)
+    ok = a == b and len(a) == 1
+    for fn in (coer, vali):
+        check.ob(rule, fn, f"fragment variable scope chosen by membership in fragment_variable_values.<attr> ({fn.name})", ok,  # type: ignore[attr-defined]
+                 f"coercion uses {sorted(a)}, validation uses {sorted(b)}")
